@@ -17,16 +17,7 @@ structure C20St where
   viol : List String
   dead : Bool            -- model hit an error/panic
 
-def c20Step (st : C20St) (op : Json) (implR : Json) : Except String C20St := do
-  let a ← asArr op
-  match a with
-  | [Json.str "add", h] =>
-    let h ← asBytes h
-    if st.dead then return st
-    match st.s.add h with
-    | .ok s' => return { st with s := s', added := h :: st.added, out := Json.str "ok" :: st.out }
-    | r => return { st with dead := true, out := Json.str r.tag :: st.out }
-  | [Json.str "flush"] =>
+def c20Flush (st : C20St) (implR : Json) : Except String C20St := do
     if st.dead then return st
     match st.s.flush with
     | .ok s' =>
@@ -39,6 +30,32 @@ def c20Step (st : C20St) (op : Json) (implR : Json) : Except String C20St := do
                 (if f.entries.all st.added.contains && st.added.all f.entries.contains then [] else ["stored-entries-are-exactly-the-added-hashes"])))
       return { st with s := s', out := jFile s'.file :: st.out, viol := st.viol ++ v }
     | r => return { st with dead := true, out := Json.str r.tag :: st.out }
+
+def c20Step (st : C20St) (op : Json) (implR : Json) : Except String C20St := do
+  let a ← asArr op
+  match a with
+  | [Json.str "add", h] =>
+    let h ← asBytes h
+    if st.dead then return st
+    match st.s.add h with
+    | .ok s' => return { st with s := s', added := h :: st.added, out := Json.str "ok" :: st.out }
+    | r => return { st with dead := true, out := Json.str r.tag :: st.out }
+  | [Json.str "flush"] => c20Flush st implR
+  | [Json.str "flushfault", _] =>
+    -- a Flush during which the harness's file fails one fan-out read before the flush has written
+    -- anything (harness/c20.go, c20FaultFile). When the fault fired, the flush has to report the
+    -- error; nothing was written, so the file is what it was and the batch is still pending — the
+    -- model does not move. The flushes that follow (the retry) are judged as any flush: the file
+    -- must hold exactly the added hashes, sorted, with a consistent fan-out table.
+    if st.dead then return st
+    if (implR.getObjVal? "fired").toOption == some (Json.bool true) then
+      return { st with out := Json.mkObj [("fired", Json.bool true), ("res", Json.str "err"), ("writes", jNat 0)] :: st.out }
+    else c20Flush st implR
+  | [Json.str "addfault", _] =>
+    -- an Add whose first read fails: it reports the error and adds nothing (the harness adds the
+    -- same hash again right after)
+    if st.dead then return st
+    return { st with out := Json.str "err" :: st.out }
   | [Json.str "has", h] =>
     let h ← asBytes h
     if st.dead then return st
@@ -57,6 +74,93 @@ def c20Step (st : C20St) (op : Json) (implR : Json) : Except String C20St := do
     return { st with s := s', out := jNat s'.size :: st.out }
   | _ => throw "bad op"
 
+/-! ### "bulk": batches of tens of thousands of hashes (harness/c20.go, genC20Bulk)
+
+The hashes are named by an index and expanded here the same way as in the harness. The case is
+judged by the property's own words, with a plain reference instead of the step-by-step model (whose
+list-based flush is quadratic): after a flush the file must hold exactly the set of added hashes —
+each once, sorted — with the fan-out table the spec (`hsInv`) demands; `Has` answers membership in
+that set; a reopened handle reports its size. -/
+
+/-- `c20BulkHash(first, i)` -/
+def bulkHash (first i : Nat) : Hash :=
+  let lo := i % 1048576
+  let z : UInt8 := 0
+  [UInt8.ofNat ((first + i / 1048576) % 256), UInt8.ofNat (lo / 65536 % 256), UInt8.ofNat (lo / 256 % 256), UInt8.ofNat (lo % 256),
+   z, z, z, z, z, UInt8.ofNat (i * 7 % 256), z, z, z, z, z, UInt8.ofNat (i / 8 % 256)]
+
+def hashLe (a b : Hash) : Bool := bytesCmp a b != .gt
+
+/-- a sorted list with adjacent repeats dropped -/
+def dedupSorted : List Hash → List Hash → List Hash
+  | [], acc => acc.reverse
+  | h :: t, [] => dedupSorted t [h]
+  | h :: t, a :: acc => if h == a then dedupSorted t (a :: acc) else dedupSorted t (h :: a :: acc)
+
+/-- fan-out table of an entry list: counter k = number of entries whose first byte is at most k
+    (one pass: a histogram of first bytes, then running sums) -/
+def fanoutOf (es : List Hash) : List Nat :=
+  let hist := es.foldl (fun (a : Array Nat) h => a.modify (firstByte h) (· + 1)) (Array.replicate 256 0)
+  (hist.foldl (fun (acc : List Nat × Nat) c => ((acc.2 + c) :: acc.1, acc.2 + c)) ([], 0)).1.reverse
+
+/-- the elements of a list of hashes, once each, ascending -/
+def asSet (l : List Hash) : List Hash := dedupSorted (l.mergeSort hashLe) []
+
+/-- Reference state. As in the model (Model/HashSet.lean) `Add` skips a hash that is in the flushed
+    file and appends any other to the pending batch (a repeat within a batch is stored twice — the
+    property asks for membership, order and a consistent fan-out table, not for uniqueness), and a
+    flush merges the batch into the sorted entries. -/
+structure C20Bulk where
+  added : List Hash
+  entries : List Hash    -- the file's entries (sorted)
+  flushed : Bool         -- the file has been written at least once
+  pending : List Hash
+  npending : Nat
+  out : List Json
+  viol : List String
+
+def C20Bulk.fileImage (st : C20Bulk) : HSFile :=
+  if st.flushed then { fanout := fanoutOf st.entries, entries := st.entries } else { fanout := [], entries := [] }
+
+def C20Bulk.flush (st : C20Bulk) : C20Bulk :=
+  { st with entries := (st.entries ++ st.pending).mergeSort hashLe, flushed := true, pending := [], npending := 0 }
+
+def C20Bulk.add (bs : Nat) (st : C20Bulk) (h : Hash) : C20Bulk :=
+  let st := { st with added := h :: st.added }
+  if st.entries.contains h then st else
+  let st := { st with pending := h :: st.pending, npending := st.npending + 1 }
+  if st.npending ≥ bs then st.flush else st
+
+def c20BulkStep (first bs : Nat) (st : C20Bulk) (step : List Nat) (implR : Json) : Except String C20Bulk := do
+  match step with
+  | [0, lo, n, mul] =>
+    let st := (List.range n).foldl (fun st j => st.add bs (bulkHash first (lo + (j * mul) % n))) st
+    let v := if implR == Json.str "ok" then [] else ["add-failed"]
+    return { st with out := Json.str "ok" :: st.out, viol := st.viol ++ v }
+  | [1] =>
+    let st := st.flush
+    let ref := st.fileImage
+    let (v, same) ← (match implR with
+      | Json.str _ => pure (["flush-failed"], false)
+      | j => do
+        let f ← fileOf j
+        pure ((if hsInv f then [] else ["entries-sorted-fanout-consistent"]) ++
+              (if asSet f.entries == asSet st.added then [] else ["stored-entries-are-exactly-the-added-hashes"]),
+              f == ref))
+    -- the reference image is printed only when it differs from the implementation's (equal images print alike)
+    return { st with out := (if same then implR else jFile ref) :: st.out, viol := st.viol ++ v }
+  | [2] =>
+    if st.npending != 0 then throw "bulk: reopen with unflushed additions"
+    return { st with out := jNat st.entries.length :: st.out }
+  | [3, i] =>
+    if st.npending != 0 then throw "bulk: has with unflushed additions"
+    let m := st.added.contains (bulkHash first i)
+    let v := match implR with
+      | Json.bool ib => if ib == m then [] else [if ib then "no-false-positive" else "no-false-negative"]
+      | _ => ["has-failed"]
+    return { st with out := Json.bool m :: st.out, viol := st.viol ++ v }
+  | _ => throw "bad bulk step"
+
 def handleC20 (op : String) (input impl : Json) : Except String Json := do
   match op with
   | "ops" =>
@@ -69,6 +173,21 @@ def handleC20 (op : String) (input impl : Json) : Except String Json := do
       | o :: os, r :: rs => do go (← c20Step st o r) os rs
       | o :: os, [] => do go (← c20Step st o Json.null) os []
     let st ← go init ops implOut
+    let mj := Json.mkObj [("res", "ok"), ("val", Json.arr st.out.reverse.toArray)]
+    let viol := if resClass impl == "panic" then ["no-panic"] else if resClass impl != "ok" then ["unexpected-error"] else st.viol.eraseDups
+    return reply mj (sameRes impl mj) viol
+  | "bulk" =>
+    let first ← natFld input "first"
+    let steps ← (← arrFld input "steps").mapM asNatList
+    let implOut ← (if resClass impl == "ok" then asArr (fldD impl "val" Json.null) else pure [])
+    let bs0 ← natFld input "batchSize"
+    let bs := if bs0 == 0 then 1024 else bs0
+    let init : C20Bulk := { added := [], entries := [], flushed := false, pending := [], npending := 0, out := [], viol := [] }
+    let rec goB (st : C20Bulk) : List (List Nat) → List Json → Except String C20Bulk
+      | [], _ => pure st
+      | o :: os, r :: rs => do goB (← c20BulkStep first bs st o r) os rs
+      | o :: os, [] => do goB (← c20BulkStep first bs st o Json.null) os []
+    let st ← goB init steps implOut
     let mj := Json.mkObj [("res", "ok"), ("val", Json.arr st.out.reverse.toArray)]
     let viol := if resClass impl == "panic" then ["no-panic"] else if resClass impl != "ok" then ["unexpected-error"] else st.viol.eraseDups
     return reply mj (sameRes impl mj) viol
